@@ -154,6 +154,40 @@ def raw_boc(blobs, root_idx, size, has_crc=True):
     return bytes(out)
 
 
+def rewritten_checksums(R, B, rng):
+    """the stored checksum replaced by particular values (all zero bytes, all ones, its own byte-reversal, the checksum of the body alone): whatever the value, a
+    checksum that is not the CRC-32C of everything before it is a corrupted bag"""
+    for r in (rc.RC(''), rc.RC('10110011'), gen.chain(3), gen.ladder(3), gen.rand_dag(rng, 5, max_bits=40)):
+        for magic in ('generic', 'idx_crc'):
+            for has_idx in ((False, True) if magic == 'generic' else (True,)):
+                good = rc.encode_boc([r], magic=magic, has_idx=has_idx, has_crc=True)
+                true = good[-4:]
+                for name, val in (('zero', bytes(4)), ('ones', b'\xff' * 4), ('reversed', true[::-1]), ('one-byte-zeroed', true[:3] + b'\x00'), ('incremented', ((int.from_bytes(true, 'little') + 1) & 0xFFFFFFFF).to_bytes(4, 'little'))):
+                    if val == true:
+                        continue
+                    must_reject(R, B, good[:-4] + val, f'checksum-rewritten-{name}', f'a CRC-protected bag whose stored checksum was replaced ({name}: {val.hex()} instead of {true.hex()})',
+                                {'magic': magic, 'idx': has_idx, 'cells': len(rc.topo_order([r]))})
+                    R.count('rewritten_checksums')
+
+
+def high_fan_in_bags(R, B, rng):
+    """one cell referenced 255, 256, 257, 300 and 1000 times (and listed as a root besides): a well-formed bag whatever the number of references TO a cell"""
+    for uses in (255, 256, 257, 300, 1000):
+        leaf = rc.RC('1101')
+        level = [rc.RC(rc.u(i, 16), (leaf,) * min(4, uses - 4 * i)) for i in range((uses + 3) // 4)]
+        while len(level) > 1:
+            level = [rc.RC(rc.u(j, 12) + '1', tuple(level[j * 4:j * 4 + 4])) for j in range((len(level) + 3) // 4)]
+        root = level[0]
+        for roots in ([root], [root, leaf], [leaf, root, leaf]):
+            data = rc.encode_boc(roots, has_idx=uses % 2 == 0, has_crc=uses % 3 == 0)
+            st, got = mon.call(B.Cell.from_boc, data)
+            R.counters['oracle_evaluations'] += 1
+            R.count('high_fan_in_bags')
+            R.check(st == 'ok' and [g.hash for g in got] == [x.hash for x in roots], 'well-formed-bag-rejected-high-fan-in',
+                    f'a bag in which one cell is referenced {uses} times ({len(roots)} roots) ' + (f'was rejected: {got!r}' if st == 'exc' else 'parsed to other roots'), {'uses': uses, 'roots': len(roots)})
+        R.case(mon.fp('fanin', uses))
+
+
 def announced_refs_in_tiny_bags(R, B, rng):
     """a bag of ONE cell (and of two) whose descriptor announces 1..4 references: every index is necessarily a self reference (0), a backward one or a dangling
     one (>= cells_num) - there is nothing a one-cell bag could validly refer to.  With CRC and without, data lengths 0..3 bytes, every target value."""
@@ -304,6 +338,8 @@ def run(R):
     if R.shard == 0:
         width_product(R, B, rng)
         announced_refs_in_tiny_bags(R, B, rng)
+        rewritten_checksums(R, B, rng)
+        high_fan_in_bags(R, B, rng)
     # deterministic small bases so that the negative half never depends on what the random classes produced
     for r in (rc.RC(''), rc.RC('1', (rc.RC('0'), rc.RC('0'))), gen.chain(3), gen.ladder(3), gen.rand_dag(rng, 4, max_bits=12)):
         negative(R, B, rng, [r], {'class': 'fixed-small'})
